@@ -83,7 +83,9 @@ def _handle_keyword(keyword, typ):
 
     return "{type}[{types}]".format(
         type=type_,
-        types=", ".join(quote_f(get_value(elt)) for elt in keyword.value.elts),
+        types=", ".join(
+            "{}".format(quote_f(get_value(elt))) for elt in keyword.value.elts
+        ),
     )
 
 
